@@ -402,3 +402,7 @@ mod tests {
         assert_eq!(nano_sec, 999_999_999);
     }
 }
+
+#[cfg(kani)]
+#[path = "/verif/kani/arrow-array/temporal_conversions.rs"]
+mod verif_kani;
